@@ -69,6 +69,8 @@ type TxSpec struct {
 	To      string   `json:"to,omitempty"` // contract address for call
 	Arg     uint64   `json:"arg,omitempty"`
 	Signed  bool     `json:"sg,omitempty"`
+	Eth     bool     `json:"eth,omitempty"` // create/call carried as a wrapped Ethereum transaction (type 188: nonce-checked)
+	NDelta  int      `json:"nd,omitempty"`  // Eth: offset from the sender's expected nonce (the harness resolves the base)
 	Salt    string   `json:"s,omitempty"`
 }
 
@@ -155,8 +157,16 @@ func (s TxSpec) Build() *types.Transaction {
 			target = s.To
 			cd.AbiData = "0x"
 		}
+		typ, extra := int32(types.TransactionTypeContract), ""
+		if s.Eth {
+			// the shape eth_tx.ConvertTx gives a wrapped Ethereum transaction; execution trusts Source
+			// (signatures are judged at admission, C07), so the RLP payload only has to be carried
+			typ = types.TransactionTypeETHTX
+			cd.GasPrice = "1000000000"
+			extra = "0x" + hex.EncodeToString([]byte("rlp-"+s.Salt))
+		}
 		data, _ := json.Marshal(cd)
-		tx = RawTx(types.TransactionTypeContract, src, target, s.Nonce, string(data), "", s.Salt)
+		tx = RawTx(typ, src, target, s.Nonce, string(data), extra, s.Salt)
 	default:
 		tx = RawTx(types.TransactionTypeOperatorEvent, src, "", s.Nonce, "", "", s.Salt)
 	}
